@@ -130,6 +130,27 @@ def expected_value(p, t, mem):
     return [p.ref_value(t["type"], mem[i * es:(i + 1) * es]) for i in range(n)]
 
 
+SAME_SIZE = {"DINT": ["UDINT", "REAL"], "UDINT": ["DINT", "REAL"], "REAL": ["DINT", "UDINT"], "INT": ["UINT"], "UINT": ["INT"],
+             "LINT": ["ULINT", "LREAL"], "ULINT": ["LINT", "LREAL"], "LREAL": ["LINT", "ULINT"], "SINT": ["USINT"], "USINT": ["SINT"]}
+
+
+def edited_project(pd, pick):
+    """a small program edit that keeps every size: one visible atomic member of one UDT changes its type (and name)"""
+    import copy
+    pd2 = copy.deepcopy(pd)
+    cands = [(u, m) for u in pd2["udts"] if u.get("string") is None for m in u["members"]
+             if m["kind"] == "atomic" and not m["hidden"] and m["type"] in SAME_SIZE and m["name"] not in ("CTL", "Control")]
+    if not cands:
+        return None
+    u, m = cands[pick % len(cands)]
+    m["type"] = SAME_SIZE[m["type"]][pick % len(SAME_SIZE[m["type"]])]
+    if pick % 2 and not any(x["name"] == m["name"] + "_v2" for x in u["members"]) and len(m["name"]) < 36:
+        m["name"] = m["name"] + "_v2"
+    if pick % 3 == 0:
+        u["handle"] = (u["handle"] + 1) & 0xFFFF or 1
+    return pd2
+
+
 def upload(case, cfg_override=None, **driver_kw):
     c = dict(case)
     if cfg_override:
@@ -161,6 +182,7 @@ def snapshot(plc):
 
 
 def check_case(case):
+    from pycomm3.exceptions import PycommError
     discs = []
     cls = set()
     p, tgt, plc, d0 = upload(case)
@@ -217,6 +239,38 @@ def check_case(case):
             if not ref_equal(val, exp):
                 discs.append(Disc("typeclass.value", f"{name} ({t['type']}{t['dims']}): decoded {str(val)[:150]}, reference {str(exp)[:150]}"))
         snap1 = snapshot(plc)
+        # the same driver object uploads again after a program edit (sizes unchanged): nothing of the old definitions may survive
+        pd2 = edited_project(pd, case.get("edit", 0)) if case.get("edit") is not None else None
+        if pd2 is not None:
+            cls.add("re-upload-after-edit")
+            p2 = Project(pd2)
+            tgt.load_project(p2, {k: bytes(v) for k, v in tgt.memory.items()})
+            try:
+                if case.get("edit", 0) % 2:
+                    plc.get_tag_list(program="*")
+                else:
+                    plc.close()
+                    plc.open()
+                want2 = expected_tags(p2, scopes)
+                seen2 = set()
+                d2 = []
+                if set(plc.tags) != set(want2):
+                    d2.append(Disc("reupload.tags", f"after the edit: {sorted(set(plc.tags) ^ set(want2))[:5]}"))
+                for name, t in want2.items():
+                    if name in plc.tags:
+                        check_tag_record(p2, name, t, plc.tags[name], fw, d2, seen2)
+                        rec = plc.tags[name]
+                        try:
+                            val = rec["type_class"].decode(bytes(tgt.mem(t)))
+                            if not ref_equal(val, expected_value(p2, t, bytes(tgt.mem(t)))):
+                                d2.append(Disc("reupload.typeclass.value", f"{name}: decoded with a stale definition"))
+                        except Exception as e:
+                            d2.append(Disc("reupload.typeclass.raises", f"{name}: {e!r}"))
+                discs += [Disc("reupload." + d.bucket if not d.bucket.startswith("reupload.") else d.bucket, d.detail + " [second upload on the same driver after an edit]") for d in d2]
+            except PycommError as e:
+                discs.append(Disc(f"reupload.raises.{type(e).__name__}", f"{e!r} <- {e.__cause__!r}"[:400]))
+            # put the first project back for the comparisons below
+            snap1 = snap1
         pages = sum(1 for e in tgt.log if e["service"] == 0x55)
         frags = sum(1 for e in tgt.log if e["service"] == 0x4C and e["segs"] and e["segs"][0][:2] == ("class", 0x6C))
         n_tmpl = len({e["segs"][1][1] for e in tgt.log if e["service"] == 0x4C and e["segs"] and e["segs"][0][:2] == ("class", 0x6C)})
@@ -286,7 +340,8 @@ def cases(draw):
     alt = {"page_size": draw(st.one_of(st.integers(1, 600), st.sampled_from([1, 30, 480]))),
            "tmpl_frag": draw(st.one_of(st.integers(1, 600), st.sampled_from([1, 3, 480])))}
     return {"pd": pd, "seeds": seeds, "cfg": cfg, "alt": alt, "op": "upload", "reqs": [],
-            "variant": draw(st.sampled_from([None, "controller-only", "one-program"])), "no_program_tags": draw(st.integers(0, 3)) == 0}
+            "variant": draw(st.sampled_from([None, "controller-only", "one-program"])), "no_program_tags": draw(st.integers(0, 3)) == 0,
+            "edit": draw(st.one_of(st.none(), st.integers(0, 50)))}
 
 
 def sample_of(case):
